@@ -1842,9 +1842,6 @@ Proof.
   - unfold h_rpc. destruct (matching s u); auto. intros H. now rewrite delete_repo_frame.
 Qed.
 
-(* no request of a reachable state makes the server code panic or loop, except addressing a
-   branch head through ":branch" when no repo exists (recorded in the notes) *)
-
 (* ------------------------------------------------------------------ what RepoInv means *)
 
 (* the parent relation inside one repo, and its transitive closure *)
@@ -1859,9 +1856,180 @@ Proof.
   intros v Hv. apply H in Hv. lia.
 Qed.
 
-(* the nodes of a named branch, listed from its first node to its head *)
-Definition is_chain (r : repo) (b : string) (l : list N) : Prop :=
-  NoDup l /\
-  (forall v, v ∈ l <-> exists n, r_nodes r !! v = Some n /\ n_branch n = b) /\
-  (forall k v w, l !! k = Some v -> l !! S k = Some w ->
-     exists n, r_nodes r !! w = Some n /\ n_parents n = [v]).
+(* a UUID names one node of one repo *)
+Lemma inv_uuid_unique s i j R R' r r' v w n m : RepoInv s ->
+  st_roots s !! i = Some R -> st_repos s !! i = Some r -> r_nodes r !! v = Some n ->
+  st_roots s !! j = Some R' -> st_repos s !! j = Some r' -> r_nodes r' !! w = Some m ->
+  n_uuid n = n_uuid m -> i = j /\ v = w.
+Proof.
+  intros I HR Hr Hn HR' Hr' Hm E.
+  pose proof (inv_node_u2v s i R r v n I HR Hr Hn) as U1.
+  pose proof (inv_node_u2v s j R' r' w m I HR' Hr' Hm) as U2.
+  destruct (inv_nodes s I i R r v n HR Hr Hn) as [_ O1].
+  destruct (inv_nodes s I j R' r' w m HR' Hr' Hm) as [_ O2].
+  rewrite E in U1, O1. split; congruence.
+Qed.
+
+(* a named branch has one head: two nodes of the branch that no child continues are the same node *)
+Lemma inv_one_head s i R r v w n m : RepoInv s ->
+  st_roots s !! i = Some R -> st_repos s !! i = Some r ->
+  r_nodes r !! v = Some n -> r_nodes r !! w = Some m ->
+  n_branch n <> "" -> n_branch m = n_branch n -> branch_leaf r n -> branch_leaf r m -> v = w.
+Proof.
+  intros I HR Hr Hn Hm Hb Eb Ln Lm.
+  pose proof (inv_heads s I i R r v n HR Hr Hn Hb Ln) as H1.
+  assert (Hb' : n_branch m <> "") by congruence.
+  pose proof (inv_heads s I i R r w m HR Hr Hm Hb' Lm) as H2.
+  rewrite Eb, H1 in H2. injection H2 as E.
+  now destruct (inv_uuid_unique s i i R R r r v w n m I HR Hr Hn HR Hr Hm E).
+Qed.
+
+(* ------------------------------------------------------------------ the code as found *)
+
+Definition fresh_okb (s : state) (f : string) : bool :=
+  valid_uuid f && bool_decide (st_u2v s !! f = None).
+Definition oracle_okb (s : state) (r : req) : bool :=
+  bool_decide (NoDup (fresh_of r)) && forallb (fresh_okb s) (fresh_of r).
+Fixpoint oracles_okb (fx : fixes) (s : state) (rs : list req) : bool :=
+  match rs with
+  | [] => true
+  | r :: rest => oracle_okb s r && oracles_okb fx (fst (step fx s r)) rest
+  end.
+
+Lemma oracle_okb_ok s r : oracle_okb s r = true -> oracle_ok s r.
+Proof.
+  unfold oracle_okb, oracle_ok. intros H. apply andb_true_iff in H as [H1 H2].
+  apply bool_decide_eq_true in H1. split; auto. apply Forall_forall. intros f Hf.
+  rewrite forallb_forall in H2. specialize (H2 f (proj1 (elem_of_list_In _ _) Hf)).
+  unfold fresh_okb in H2. apply andb_true_iff in H2 as [A B]. apply bool_decide_eq_true in B. split; auto.
+Qed.
+
+Lemma oracles_okb_ok fx rs : forall s, oracles_okb fx s rs = true -> oracles_ok fx s rs.
+Proof.
+  induction rs as [|r rs IH]; intros s H; simpl in *; auto.
+  apply andb_true_iff in H as [H1 H2]. split; [now apply oracle_okb_ok|now apply IH].
+Qed.
+
+(* a sequence of requests, each with a correct UUID oracle, whose last request is answered with an
+   error although it changed the state *)
+Definition frame_violated (fx : fixes) (rs : list req) (r : req) : Prop :=
+  oracles_ok fx init (rs ++ [r])%list /\
+  is_done (snd (step fx (run fx init rs) r)) = false /\
+  frame (fst (step fx (run fx init rs) r)) <> frame (run fx init rs).
+
+Definition U (s : string) : uref := mkUref s 0.
+Definition u1 := "00000000000000000000000000000001".
+Definition u2 := "00000000000000000000000000000002".
+Definition u3 := "00000000000000000000000000000003".
+Definition u4 := "00000000000000000000000000000004".
+Definition u5 := "00000000000000000000000000000005".
+Definition u6 := "00000000000000000000000000000006".
+
+(* a repo whose committed root has a committed branch a (u2) and an open branch b (u3) *)
+Definition prelude : list req :=
+  [RNewRepo None "" u1; RCommit (U u1); RBranch (U u1) "a" "" u2; RBranch (U u1) "b" "" u3; RCommit (U u2)].
+
+Definition only_merge_unvalidated := mkFixes false true true true true true.
+Definition only_merge_undistinct := mkFixes true false true true true true.
+Definition only_assign_unchecked := mkFixes true true false true true true.
+Definition only_tag_unguarded := mkFixes true true true false true true.
+Definition only_root_unvalidated := mkFixes true true true true false true.
+Definition only_resolve_unvalidated := mkFixes true true true true true false.
+
+(* 1. a refused merge (parent b is not committed) leaves its child in the DAG *)
+Lemma merge_orphan_refuted :
+  frame_violated only_merge_unvalidated prelude (RMerge (U u2) true [U u2; U u3] u4).
+Proof.
+  split; [apply oracles_okb_ok; vm_compute; reflexivity|]. split; [vm_compute; reflexivity|].
+  intros H. apply (f_equal (fun fr => snd (fst fr))) in H. vm_compute in H. discriminate.
+Qed.
+
+(* ... and when the bad parent comes first the orphan is a second root *)
+Lemma merge_second_root_refuted :
+  oracles_ok only_merge_unvalidated init (prelude ++ [RMerge (U u3) true [U u3; U u2] u4])%list /\
+  ~ RepoInv (run only_merge_unvalidated init (prelude ++ [RMerge (U u3) true [U u3; U u2] u4])).
+Proof.
+  split; [apply oracles_okb_ok; vm_compute; reflexivity|]. intros I.
+  set (s := run _ _ _) in *.
+  destruct (inv_live s I 1%N u1) as (r & Hr & _ & W); [vm_compute; reflexivity|].
+  vm_compute in Hr. injection Hr as <-.
+  pose proof (wf_single_root _ W 4%N (mkNode u4 [] [] "" false)) as H.
+  assert (E : 4%N = 1%N) by (apply H; vm_compute; reflexivity). discriminate.
+Qed.
+
+(* 2. a parent listed twice is accepted: the DAG gets a double edge *)
+Lemma repeated_parent_refuted :
+  oracles_ok only_merge_undistinct init (prelude ++ [RMerge (U u2) true [U u2; U u2] u4])%list /\
+  ~ RepoInv (run only_merge_undistinct init (prelude ++ [RMerge (U u2) true [U u2; U u2] u4])).
+Proof.
+  split; [apply oracles_okb_ok; vm_compute; reflexivity|]. intros I.
+  set (s := run _ _ _) in *.
+  destruct (inv_live s I 1%N u1) as (r & Hr & _ & W); [vm_compute; reflexivity|].
+  vm_compute in Hr. injection Hr as <-.
+  destruct (wf_nodup _ W 4%N (mkNode u4 [2%N; 2%N] [] "" false)) as [H _]; [vm_compute; reflexivity|].
+  apply NoDup_cons in H as [H _]. apply H. apply elem_of_cons. auto.
+Qed.
+
+(* 3. a tag that is the UUID of an existing node creates a second node with that UUID *)
+Lemma duplicate_uuid_refuted :
+  oracles_ok only_assign_unchecked init (prelude ++ [RTag (U u2) u1])%list /\
+  ~ RepoInv (run only_assign_unchecked init (prelude ++ [RTag (U u2) u1])).
+Proof.
+  split; [apply oracles_okb_ok; vm_compute; reflexivity|]. intros I.
+  set (s := run _ _ _) in *.
+  (* version 1 still maps to u1, but u1 now maps to version 4 *)
+  assert (H : st_u2v s !! u1 = Some 1%N) by (apply (inv_bij s I); vm_compute; reflexivity).
+  vm_compute in H. discriminate.
+Qed.
+
+(* ... and the empty tag creates a node whose UUID is NilUUID *)
+Lemma empty_uuid_refuted :
+  oracles_ok only_assign_unchecked init (prelude ++ [RTag (U u2) ""])%list /\
+  ~ RepoInv (run only_assign_unchecked init (prelude ++ [RTag (U u2) ""])).
+Proof.
+  split; [apply oracles_okb_ok; vm_compute; reflexivity|]. intros I.
+  pose proof (inv_nil _ I) as H. vm_compute in H. discriminate.
+Qed.
+
+(* 4. POST tag on the open node u3 naming the open node u4: refused, yet u4 is now committed *)
+Lemma tag_commits_on_error_refuted :
+  frame_violated only_tag_unguarded (prelude ++ [RNewVersion (U u2) "" u4])%list (RTag (U u3) u4).
+Proof.
+  split; [apply oracles_okb_ok; vm_compute; reflexivity|]. split; [vm_compute; reflexivity|].
+  intros H. apply (f_equal (fun fr => (fst (fst (fst (fst (fst (fst (fst fr))))))))) in H.
+  apply (f_equal (fun m => match m !! 1%N with
+                           | Some r => option_map n_locked (r_nodes r !! 4%N)
+                           | None => None end)) in H.
+  vm_compute in H. discriminate.
+Qed.
+
+(* 5. roots "xa" and "xab": branch "bmaster" of the first repo overwrites master's head of the second *)
+Definition collide : list req :=
+  [RNewRepo (Some "xa") "" u1; RCommit (U "xa"); RNewVersion (U "xa") "" u2;
+   RNewRepo (Some "xab") "" u3; RCommit (U u2); RBranch (U u2) "bmaster" "" u4;
+   RCommit (U "xab"); RBranch (U "xab") "c" "" u5].
+Lemma head_key_collision_refuted :
+  oracles_ok only_root_unvalidated init collide /\
+  matching (run only_root_unvalidated init collide) (U "xab:master") = Done u4 /\
+  st_repo_of (run only_root_unvalidated init collide) !! u4 = Some 1%N /\
+  st_repo_of (run only_root_unvalidated init collide) !! "xab" = Some 2%N.
+Proof. split; [apply oracles_okb_ok; vm_compute; reflexivity|]. vm_compute. auto. Qed.
+
+(* 6. resolve: the first data instance has a conflict in parent u3, the second does not exist *)
+Lemma resolve_partial_refuted :
+  frame_violated only_resolve_unvalidated
+    (prelude ++ [RNewData (U u3) true "d1"; RCommit (U u3)])%list
+    (RResolve (U u1) [("d1", [(1%nat, u5)]); ("nosuchdata", [])] [U u2; U u3] u6).
+Proof.
+  split; [apply oracles_okb_ok; vm_compute; reflexivity|]. split; [vm_compute; reflexivity|].
+  intros H. apply (f_equal (fun fr => snd (fst fr))) in H. vm_compute in H. discriminate.
+Qed.
+
+(* the repaired code refuses all of these without touching the state *)
+Lemma repaired_refuses_witnesses :
+  step repaired (run repaired init prelude) (RMerge (U u2) true [U u2; U u3] u4) = (run repaired init prelude, Fail) /\
+  step repaired (run repaired init prelude) (RMerge (U u2) true [U u2; U u2] u4) = (run repaired init prelude, Fail) /\
+  step repaired (run repaired init prelude) (RTag (U u2) u1) = (run repaired init prelude, Fail) /\
+  step repaired (run repaired init prelude) (RTag (U u2) "") = (run repaired init prelude, Fail) /\
+  step repaired init (RNewRepo (Some "xa") "" u1) = (init, Fail).
+Proof. vm_compute. auto. Qed.
